@@ -167,6 +167,13 @@ def instances_for(tier):
                I.family_Q3(False, maxuq=3 if tier == "thorough" else 2))
     out += fam("HR one-sided x P", I.family_HR(False, sizes=I.HR_SIZES[:6]))
     out += fam("HR two-sided x P", I.family_HR(True, sizes=I.HR_SIZES[:6]))
+    hr23 = [x for x in I.family_HR(True, sizes=[(2, 3)]) if x.pq[0] in ((0, 1), (0, 2))
+            and len(set(x.pq)) == 1]
+    # the same structures with the first hospital closed for good (capacity 0)
+    # and unit capacity elsewhere: first choices unavailable, ranks 2 and 3 decide
+    hr23 += [I.make2(x.ns, x.np, x.sprefs, x.lprefs, ((0, 0),) + x.pq[1:])
+             for x in hr23 if x.pq[0] == (0, 1)]
+    out += fam("HR (2,3) two-sided x {unit, cap2, unit with hospital 1 at capacity 0}", hr23)
     if tier == "thorough":
         out += fam("L one/two-sided x P", list(I.family_L(False)) + list(I.family_L(True)))
         out += fam("Q full quotas (all other structures, one- and two-sided)",
